@@ -3,7 +3,7 @@
    Print Assumptions beneath.
 
    The model (Compaction.v) describes the REPAIRED code (/repo deebfc9, cf3362d, ca9115b,
-   390f6e5). WF = well-formed directory (files strictly ascending and non-empty, keys non-empty,
+   390f6e5, f30cabd). WF = well-formed directory (files strictly ascending and non-empty,
    distinct creation stamps below the clock, levels >= 1 key-disjoint), established for every
    reachable state by C12_reachable_wf. [selected] = any task SelectCompaction (L0->L1,
    promotion, size ratio) or CompactRange can return. [dread dir k] = what a database opened
@@ -54,7 +54,7 @@ Print Assumptions C12_task_keeps_wf.
 
 Theorem C12_reachable_wf : forall c k ops, prog_ok k ops ->
   WF (disk (crun c k ops)) (clock (eng (crun c k ops))).
-Proof. intros c k ops [A B]. exact (c2_wf _ (reachable_wf c k ops A B)). Qed.
+Proof. intros c k ops A. exact (c2_wf _ (reachable_wf c k ops A)). Qed.
 Print Assumptions C12_reachable_wf.
 
 (* --- C12_tombstone_safe: a deletion marker that wins the merge is kept whenever a table
